@@ -118,7 +118,14 @@ EvPlan ==
   /\ v_fails' = v_fails \cup (IF Events[v_l].res.kind \notin {"Some", "None"} THEN {"C11.planPanic"} ELSE {})
   /\ v_l' = v_l + 1 /\ UNCHANGED <<v_c, v_rd>>
 
-Next == EvEncode \/ ReadAscii \/ ReadC40 \/ ReadText \/ ReadX12 \/ ReadEdifact \/ ReadB256 \/ ReadFinish
+EvEncodeStr ==
+  /\ IsEvent("EncodeStr")
+  /\ LET k == Events[v_l].res.kind IN
+     v_fails' = v_fails \cup (IF k \notin {"Ok", "TooMuch", "ListEmpty"} THEN {"C11.encodeStrPanic"} ELSE {})
+                        \cup (IF (k = "ListEmpty") # (Case.list = <<>>) THEN {"C11.listEmptyIff"} ELSE {})
+  /\ v_l' = v_l + 1 /\ UNCHANGED <<v_c, v_rd>>
+
+Next == EvEncodeStr \/ EvEncode \/ ReadAscii \/ ReadC40 \/ ReadText \/ ReadX12 \/ ReadEdifact \/ ReadB256 \/ ReadFinish
         \/ EvDecodeData \/ EvDecodePixels \/ EvPlan
 
 -----------------------------------------------------------------------------
